@@ -80,7 +80,14 @@ def main():
             shutil.rmtree(scratch, ignore_errors=True)
             shutil.rmtree(os.path.join(ROOT, "replays", "found"),
                           ignore_errors=True)
-    json.dump(results, open(results_path, "w"), indent=1, sort_keys=True)
+    # merge into whatever is on disk now (another run may have finished)
+    merged = {}
+    if os.path.exists(results_path):
+        merged = json.load(open(results_path))
+    for name in names:
+        if name in results:
+            merged.setdefault(name, {}).update(results[name])
+    json.dump(merged, open(results_path, "w"), indent=1, sort_keys=True)
 
 
 if __name__ == "__main__":
